@@ -48,7 +48,7 @@ def main():
             meta["demo_with_change_tail"] = out[-600:]
             if not skip_tests:
                 rc, out = sh([PY, "-m", "pytest", "-q", "-p", "no:cacheprovider", "--timeout=900", "-x" if False else "-q",
-                              "--continue-on-collection-errors", "-n", "8", "test"], cwd=wt, env=env, timeout=3600)
+                              "--continue-on-collection-errors", "test"], cwd=wt, env=env, timeout=3600)
                 tail = [l for l in out.splitlines() if " passed" in l or " failed" in l][-1:]
                 meta["tests_with_change"] = tail[0] if tail else out[-300:]
                 failed = sorted(l.split()[1] for l in out.splitlines() if l.startswith("FAILED") or l.startswith("ERROR"))
